@@ -124,7 +124,7 @@ def _state(tr):
 
 
 def _hist(case):
-    env = P.Env(name='K5', params=CLASSES['K5'])
+    env = P.Env(name='K5', params=CLASSES['K5'], draws=[])
     for c in CLASSES:
         if c != 'K5':
             env.add_class(c, params=CLASSES[c])
@@ -182,11 +182,22 @@ def _seeded(case):
             prog = dict(RUNS[k2], cls='K')
             if variant == 'paired':
                 prog = dict(prog, steps=prog['steps'] + [{'fn': 'in_b', 'a': ['xs'], 'ret': 'vlst'}])
-            r = P.record(prog, env=env)
+            if variant == 'threads' and i % 2:   # every other operation runs (start to finish) on a fresh request thread
+                import threading
+                box = []
+                t = threading.Thread(target=lambda: box.append(P.record(prog, env=env)))
+                t.start()
+                t.join()
+                r = box[0]
+            else:
+                r = P.record(prog, env=env)
             out.append([e[0] for e in r.log if e[0] in ('save', 'abort')][-1:])
         return [o[0] if o else None for o in out]
     viols = []
-    a, b, c = run('same'), run('same'), run('paired')
+    a, b, c, d = run('same'), run('same'), run('paired'), run('threads')
+    if d != exp:
+        i = next(i for i, (x, y) in enumerate(zip(d, exp)) if x != y)
+        viols.append(viol('seeded:thread-dependent', 'decision %d changed when every other operation ran on its own thread (one seeded stream per recorder expected)' % i, exp[i], d[i]))
     if a != b:
         viols.append(viol('seeded:not-reproducible', 'two recorders with the same seed decided differently on the same history (seed %d)' % seed, a[:20], b[:20]))
     if a != exp:
@@ -196,7 +207,7 @@ def _seeded(case):
         i = next(i for i, (x, y) in enumerate(zip(c, exp)) if x != y)
         viols.append(viol('seeded:content-dependent', 'decision %d changed when only content/outcome of the operations changed' % i, exp[i], c[i]))
     kept = sum(1 for x, k in zip(a, plan) if x == 'save' and k in ('plain', 'raise'))
-    return dict(viol=viols, obs=repr((seed, rate, kept)), nontrivial=True, evals=3 * n, transitions=3 * n)
+    return dict(viol=viols, obs=repr((seed, rate, kept)), nontrivial=True, evals=4 * n, transitions=4 * n)
 
 
 def _mk_s3(calc):
